@@ -211,7 +211,7 @@ CHECKS = {
     },
     "C12": {
         "explanation": "bounded symbolic execution of consumerGroup (AddMember/RemoveMember/StreamDeleted/balance) on directly constructed groups with symbolic consumer ids",
-        "assumptions": ["member liveness timers do not fire (consumer timeout 1h of virtual time)",
+        "assumptions": ["VerifC12Assignments: member liveness timers do not fire (consumer timeout 1h of virtual time); VerifC12Expiry: virtual clock, timers fire in deadline order when the harness advances time, the Raft round trip of an expiry is the handler calling RemoveMember directly",
                         "map iteration order: replica b ranges over its maps in reverse insertion order, replica a in insertion order (2 of the k! orders)"],
         "groups": [
             {"pkg": "./server", "overlay": "server", "pkgname": "server",
@@ -219,7 +219,10 @@ CHECKS = {
                  {"name": "VerifC12Assignments", "quick": {"members": 3, "steps": 4}, "thorough": {"members": 3, "steps": 5},
                   "max-paths": 3000000,
                   "covers": ["done", "join", "leave", "stream-deleted"],
-                  "targets": ["consumerGroup).balanceAssignmentsForStream", "consumerGroup).removeConsumer", "consumerGroup).StreamDeleted"]},
+                  "targets": ["consumerGroup).balanceAssignmentsForStream", "consumerGroup).removeConsumer", "consumerGroup).StreamDeleted", "consumerGroup).GetAssignments"]},
+                 {"name": "VerifC12Expiry", "quick": {"steps": 4}, "thorough": {"steps": 6}, "replay": "interpreted", "max-paths": 3000000,
+                  "covers": ["done", "join", "poll", "time", "expired", "removal-failed-once", "coordinator-away", "coordinator-back", "leave"],
+                  "targets": ["consumerGroup).consumerExpired", "consumerGroup).startMemberTimer", "consumerGroup).SetCoordinator", "consumerGroup).GetAssignments"]},
              ]},
         ],
     },
